@@ -391,6 +391,197 @@ def process_state(ctx):
                     'process-wide cache); results should not depend on it')
 
 
+MUTABLE_CTORS = ('dict', 'list', 'set', 'defaultdict', 'OrderedDict',
+                 'deque', 'count', 'itertools.count', 'Counter',
+                 'collections.defaultdict', 'collections.OrderedDict',
+                 'collections.deque', 'collections.Counter')
+
+
+def shared_class_state(ctx):
+    """A mutable object bound in a class body is one object for the whole
+    process.  Unless every class that inherits it rebinds `self.X` in its
+    __init__, a mutation through an instance (`self.X[k] = v`,
+    `obj.X.append(..)`, `next(self.X)`) is a write to process-wide state."""
+    repo = ctx.repo
+    rule = 'C20.class-level-mutable-not-shared-through-instances'
+    ctx.rule(rule, 'a dict/list/set/counter created in a class body is '
+             'either rebound per instance in __init__ (self.X = ...) or '
+             'never mutated through an instance; registration tables '
+             'filled at import time are exempt by name')
+    shared = {}     # attr name -> [(class, value text)]
+    n = 0
+    for m in repo.modules.values():
+        if m.name in OUT_OF_SCOPE:
+            continue
+        for c in m.classes.values():
+            if 'Enum' in repo.base_names(c):
+                continue
+            for name, v in c.class_attrs.items():
+                mutable = isinstance(v, (ast.Dict, ast.List, ast.Set,
+                                         ast.ListComp, ast.DictComp,
+                                         ast.SetComp)) or (
+                    isinstance(v, ast.Call) and
+                    dotted(v.func) in MUTABLE_CTORS)
+                if not mutable:
+                    continue
+                n += 1
+                # classes that see this object: c and its subclasses that
+                # do not rebind it per instance
+                sharers = []
+                for m2 in repo.modules.values():
+                    for c2 in m2.classes.values():
+                        mro = repo.mro(c2)
+                        if c not in mro:
+                            continue
+                        rebound = False
+                        for k in mro[:mro.index(c) + 1]:
+                            init = k.methods.get('__init__')
+                            if init is not None and any(
+                                    isinstance(s, (ast.Assign,
+                                                   ast.AnnAssign)) and
+                                    any(dotted(t) == f'self.{name}'
+                                        for t in (s.targets if isinstance(
+                                            s, ast.Assign) else [s.target]))
+                                    for s in ast.walk(init.node)):
+                                rebound = True
+                        if not rebound:
+                            sharers.append(c2.name)
+                ctx.instance(rule, f'{c.file}:{c.name}.{name}',
+                             sample={'value': unparse(v)[:40],
+                                     'shared_by': sharers[:6]})
+                if sharers:
+                    shared.setdefault(name, []).append((c, unparse(v)[:40]))
+    ctx.floor('mutable class-level attributes examined', n, 80)
+    # mutations through an instance
+    for f in repo.all_functions():
+        if f.module.name in OUT_OF_SCOPE:
+            continue
+        key = f'{f.module.name}:{f.qualname}'
+        if key in REGISTRATION:
+            continue
+        sites = []
+        for kind, root, path, line, text in effects.writes(f.node):
+            parts = path.split('.') if path else []
+            if kind == 'mutcall':
+                parts = parts[:-1]
+                tail_is_attr = False
+            else:
+                # `obj.X = v` rebinds (creates an instance attribute);
+                # `obj.X[k] = v` mutates
+                tail_is_attr = text.endswith('.' + parts[-1]) if parts \
+                    else False
+            for i, p in enumerate(parts):
+                if p in shared and not (tail_is_attr and kind == 'store'
+                                        and i == len(parts) - 1):
+                    if root in ('cls',) or (
+                            root and repo.resolve_name(f.module, root) and
+                            repo.resolve_name(f.module, root)[0] == 'class'):
+                        continue        # reported by the class-store rule
+                    sites.append((p, kind, text, line))
+        for c in ast.walk(f.node):
+            if isinstance(c, ast.Call) and dotted(c.func) == 'next' and \
+                    c.args and isinstance(c.args[0], ast.Attribute) and \
+                    c.args[0].attr in shared:
+                sites.append((c.args[0].attr, 'next', unparse(c)[:40],
+                              c.lineno))
+        for attr, kind, text, line in sites:
+            owners = ', '.join(f'{c.name}.{attr} = {v}'
+                               for c, v in shared[attr])
+            ctx.finding(rule, f'{f.file}:{f.qualname}:{kind} {text}',
+                        f'{f.qualname} mutates `{text}`, but {owners} is '
+                        f'created once in the class body and not rebound per '
+                        f'instance: the object is shared by every '
+                        f'compilation/run in the process', f.file, line)
+
+
+def _memo_numeric(fnode):
+    memo = None
+    for d in getattr(fnode, 'decorator_list', []):
+        name = dotted(d.func) if isinstance(d, ast.Call) else dotted(d)
+        if name and name.split('.')[-1] in ('lru_cache', 'cache'):
+            memo = unparse(d)
+    if memo is None:
+        return None, set()
+    params = [a.arg for a in fnode.args.args if a.arg not in
+              ('self', 'cls')]
+    numeric = set()
+    for x in ast.walk(fnode):
+        names = []
+        if isinstance(x, ast.BinOp) and isinstance(
+                x.op, (ast.Add, ast.Sub, ast.Mult, ast.Div, ast.Pow,
+                       ast.FloorDiv, ast.Mod)):
+            names = [x.left, x.right]
+        elif isinstance(x, ast.Compare) and any(
+                isinstance(c, ast.Constant) and
+                isinstance(c.value, (int, float)) and
+                not isinstance(c.value, bool)
+                for c in [x.left] + x.comparators):
+            names = [x.left] + x.comparators
+        elif isinstance(x, ast.Call) and dotted(x.func) in (
+                'round', 'abs', 'int', 'float', 'str', 'format',
+                'ctypes.c_float', 'math.floor'):
+            names = list(x.args)
+        elif isinstance(x, ast.UnaryOp) and isinstance(x.op, ast.USub):
+            names = [x.operand]
+        for nm in names:
+            if isinstance(nm, ast.Name) and nm.id in params:
+                numeric.add(nm.id)
+    return memo, numeric
+
+
+_MEMO_POSITIVE = '''
+@lru_cache(maxsize=None)
+def fmt(n, kind):
+    if n >= 0:
+        return ' ' + str(n)
+    return str(n)
+'''
+_MEMO_NEGATIVE = '''
+@lru_cache(maxsize=None)
+def lookup(name):
+    return TABLE[name.lower()]
+'''
+
+
+def memoised_functions(ctx):
+    """functools caches are process-wide state written after import.  They
+    are harmless only when equal keys stand for indistinguishable
+    arguments; numbers break that (0.0 == -0.0, 1 == 1.0 == True share one
+    entry unless typed=True, and -0.0/0.0 share one even then)."""
+    repo = ctx.repo
+    rule = 'C20.memoised-function-keys-are-exact'
+    ctx.rule(rule, 'a function on the compile/execute path that is '
+             'memoised with functools.lru_cache/cache takes no numeric '
+             'parameter (numeric keys that compare equal, 0.0/-0.0 or '
+             '1/1.0/True, would make its result depend on which call came '
+             'first in the process)')
+    n = 0
+    for f in repo.all_functions():
+        if f.module.name in OUT_OF_SCOPE:
+            continue
+        n += 1
+        memo, numeric = _memo_numeric(f.node)
+        if memo is None:
+            continue
+        construct = f'{f.file}:{f.qualname}:{memo}'
+        ctx.instance(rule, construct, sample={'numeric_params':
+                                              sorted(numeric)})
+        if numeric:
+            ctx.finding(rule, construct,
+                        f'{f.qualname} is memoised ({memo}) and its '
+                        f'parameter(s) {sorted(numeric)} are numbers: keys '
+                        f'that compare equal but differ (0.0 and -0.0; 1, '
+                        f'1.0 and True) share one cache entry, so the result '
+                        f'depends on what the process computed before',
+                        f.file, f.line)
+    ctx.floor('functions examined for memoisation', n, 400)
+    # the expected count on a clean tree is zero: keep the detector honest
+    pos = _memo_numeric(ast.parse(_MEMO_POSITIVE).body[0])
+    neg = _memo_numeric(ast.parse(_MEMO_NEGATIVE).body[0])
+    if pos[1] != {'n'} or neg[0] is None or neg[1]:
+        raise AnalysisError('memoisation detector self-check failed')
+
+
 def run(ctx):
     ctx.clauses = [
         'no nondeterminism source on compile/execute paths',
@@ -406,6 +597,8 @@ def run(ctx):
     sources(ctx)
     set_order(ctx)
     process_state(ctx)
+    shared_class_state(ctx)
+    memoised_functions(ctx)
     return ('Absence of nondeterminism sources decided by three '
             'whole-repository scans over resolved names: uses of clock/'
             'random/process/environment APIs outside the peripherals '
